@@ -120,6 +120,11 @@ def shape_case(draw, lmax=6, brmax=8, extra=200, methods=("cov_mm", "cov_R")):
     r = draw(st.integers(1, l))
     br = draw(st.integers(1, brmax))
     n = 4 * br + 12 + draw(st.integers(0, extra))
+    if draw(st.integers(0, 9)) == 0:
+        # many block rows on a record of a few thousand samples (the normal use), lengths at and just below powers of two included
+        br = draw(st.sampled_from([32, 40, 60]))
+        n = draw(st.sampled_from([2048, 4096, 4090, 3000]))
+        l, r = min(l, 2), min(r, 2)
     return {"method": draw(st.sampled_from(methods)), "l": l, "r": r, "br": br, "Ndat": n,
             "seed": draw(st.integers(0, 2**32 - 1)), "alpha": draw(st.floats(-3, 3)), "beta": draw(st.floats(-3, 3)),
             "layout": draw(st.sampled_from(["C", "C", "F", "colslice", "rowstep", "neg"])),  # memory layout of the record handed in
